@@ -172,7 +172,8 @@ class C05(StreamProp):
 
 class C06(StreamProp):
     id = 'C06'
-    impl_only_kinds = ('EP', 'SI')
+    props_files = ['C06', 'C06b']
+    impl_only_kinds = ('EP',)
     rule = ('(max_frame_size, max_message_size, read_buffer_size) over {0,1,2,5,125,126,1000}^2 x {0,64,4096} x fragment patterns with sizes limit-1/limit/limit+1, '
             'text with a split code point at the limit, announced lengths up to 2^64-1 with no payload; compared with the independent decoder with the same limits; '
             'limits installed by set_config (at time zero and in the middle of a fragmented message; implementation-only cases, monitor only), every config setter/field pair; counting allocator on reads')
@@ -832,7 +833,7 @@ class C14(E2Prop):
 
 class C07(E2Prop):
     id = 'C07'
-    props_files = ['C07', 'C07hs']
+    props_files = ['C07', 'C07hs', 'C07cfg']
     debug_in_quick = True      # overflow checks / debug_assert! are this property's subject: the debug build runs in every tier
     rule = ('socket: random byte streams, mutated valid streams, boundary-crafted headers x per-call outcomes {n bytes, 0, WouldBlock, Interrupted, reset, other} on read/write/flush x roles x finite limits, plus all history generators; '
             'handshake: valid/invalid/endless heads x the same outcome kinds incl. zero-length writes; every case under catch_unwind; monitor: no panic, no out-of-fuel, bounded transport calls')
@@ -905,7 +906,7 @@ class C07(E2Prop):
         for k, c in enumerate(hs):
             f = c.split(' '); f[1] = 'hs%d' % k; out.append(' '.join(f))
         return out
-    impl_only_kinds = ('TP', 'SI')
+    impl_only_kinds = ('TP',)
     model_only_kinds = ('AC',)
     def model_monitor(self, case_line, mtrace):
         return None
